@@ -340,12 +340,22 @@ func (c *immuClient) _streamVerifiedGet(ctx context.Context, req *schema.Verifia
 	var e *store.EntrySpec
 
 	if vEntry.Entry.ReferencedBy == nil {
+		// the proof is about the requested key: the entry handed to the caller is not said to be another one
+		if !bytes.Equal(vEntry.Entry.Key, req.KeyRequest.Key) {
+			return nil, store.ErrCorruptedData
+		}
+
 		vTx = vEntry.Entry.Tx
 		e = database.EncodeEntrySpec(req.KeyRequest.Key, schema.KVMetadataFromProto(vEntry.Entry.Metadata), vEntry.Entry.Value)
 	} else {
 		ref := vEntry.Entry.ReferencedBy
+
+		if !bytes.Equal(ref.Key, req.KeyRequest.Key) {
+			return nil, store.ErrCorruptedData
+		}
+
 		vTx = ref.Tx
-		e = database.EncodeReference(ref.Key, schema.KVMetadataFromProto(ref.Metadata), vEntry.Entry.Key, ref.AtTx)
+		e = database.EncodeReference(req.KeyRequest.Key, schema.KVMetadataFromProto(ref.Metadata), vEntry.Entry.Key, ref.AtTx)
 	}
 
 	if state.TxId <= vTx {
